@@ -164,6 +164,7 @@ func checkC02(c *Ctx) *report.Result {
 	}
 	c.schedulerLemmas(r, m)
 	c.interruptSequences(r, m)
+	c.sequenceInstall(r, m)
 	_ = it
 	return r
 }
@@ -420,4 +421,41 @@ func (c *Ctx) interruptSequences(r *report.Result, m *Machine) {
 		collect(res)
 	}
 	r.Ob("L-int", len(lens) == 3 && lens[5] && lens[6] && lens[1], "interrupt sequence lengths", c.pos(checkFn.Blocks[0].Instrs[0]), fmt.Sprintf("sequence lengths found %v, documented {1,5,6}", lens))
+}
+
+// sequenceInstall: when the boundary check returns an interrupt sequence the fetch routine
+// installs it with the cycle counter at 0 and WITHOUT an early-exit predicate (S2 for the
+// non-opcode rows); otherwise the previous conditional instruction's predicate would decide
+// when the sequence ends.
+func (c *Ctx) sequenceInstall(r *report.Result, m *Machine) {
+	it := c.W.It
+	im := c.interruptModel(r, "S2")
+	if im == nil {
+		return
+	}
+	cpu := m.CPU
+	for n, seq := range im.Seqs {
+		seq := seq
+		st := c.quietState(m)
+		predField := ""
+		if stt, ok := cpu.T.Underlying().(*types.Struct); ok {
+			for i := 0; i < stt.NumFields(); i++ {
+				if f := stt.Field(i); isEarlyType(f.Type()) {
+					predField = "." + f.Name()
+					st.SetCell(cpu, predField, &ai.Top{T: f.Type()})
+				}
+			}
+		}
+		it.Intercepts[im.CheckFn] = func(s *ai.State, _ ssa.Instruction, _ []ai.Value) (ai.Value, *ai.State) { return seq, s }
+		ev, _ := c.evalCPU(st, m.NextFn, []ai.Value{ptrTo(cpu)}, nil, nil)
+		delete(it.Intercepts, im.CheckFn)
+		ok := ev.Post != nil && predField != ""
+		if ok {
+			_, isNil := ev.Post.LoadPtr(&ai.Ptr{Obj: cpu, Path: predField, Elem: ai.LeafTypeAt(cpu.T, predField)}).(*ai.NilV)
+			cy := c.cellInt(ev.Post, cpu, ".currentCycle")
+			cv, isc := constOf(cy)
+			ok = isNil && isc && cv == 0
+		}
+		r.Ob("S2", ok, fmt.Sprintf("fetch routine installs the %d-entry interrupt sequence at cycle 0 without an early-exit predicate", n), firstPos(c, m.NextFn), "after installing an interrupt sequence the cycle counter is not 0 or an early-exit predicate (possibly the previous instruction's) is still set")
+	}
 }
